@@ -20,48 +20,52 @@ RE_NAMES = ("RE_DMD", "RE_DMDPROP", "RE_DRF", "RE_DRFDMD", "RE_DRFDMDPROP", "RE_
 
 
 def handler_table(repo=None):
+    """{(include_drf, include_dmd, include_drf_properties, include_dmd_properties): (names of the regexes handed to the base
+    class, raised?)} by abstract execution of the constructor (private module functions and constant tables followed)"""
     m = pyfront.mod("watchdog_drf", repo)
     f = m.fn(H + ".__init__")
     body = [s for s in f.body if not (isinstance(s, ast.Expr) and isinstance(s.value, ast.Constant))]
+    sup = [c for c in ast.walk(f) if isinstance(c, ast.Call) and pyfront.call_name(c) == "super().__init__"]
+    if len(sup) != 1 or pyfront.kwarg(sup[0], "regexes") is None:
+        raise AnalysisError("%s.__init__: super().__init__(regexes=...) not found" % H)
+    rx_arg = pyfront.kwarg(sup[0], "regexes")
+    sup_stmt = m.enclosing(sup[0], (ast.stmt,))
     out = {}
     for idrf, idmd in itertools.product((True, False), repeat=2):
         for pdrf, pdmd in itertools.product((True, False, None), repeat=2):
             it = dtable.Interp({"include_drf": idrf, "include_dmd": idmd, "include_drf_properties": pdrf,
-                                "include_dmd_properties": pdmd, "starttime": None, "endtime": None, "ignore_regexes": None})
-            it.run(body)
-            out[(idrf, idmd, pdrf, pdmd)] = (tuple(it.appends.get("regexes", [])), it.raised)
+                                "include_dmd_properties": pdmd, "starttime": None, "endtime": None, "ignore_regexes": None}, module=m)
+            it.run(body, stop_at=lambda s_: s_ is sup_stmt)
+            names = ()
+            if not it.raised:
+                v = it.ev(rx_arg)
+                if not isinstance(v, list):
+                    raise AnalysisError("%s.__init__: value of the regexes argument not evaluated (%r)" % (H, v))
+                names = tuple(x[1] if isinstance(x, tuple) and len(x) == 2 and x[0] == "sym" else str(x) for x in v)
+            out[(idrf, idmd, pdrf, pdmd)] = (names, it.raised)
     return m, f, out
 
 
 def r1_same_constants(repo=None):
     r = Rule("C15.R1", "every regex the event handler registers is one of list_drf's grammar constants")
-    m = pyfront.mod("watchdog_drf", repo)
-    f = m.fn(H + ".__init__")
+    m, f, table = handler_table(repo)
     imported = set()
     for s in m.tree.body:
         if isinstance(s, ast.ImportFrom) and s.level == 1 and s.module == "list_drf":
             imported |= {a.asname or a.name for a in s.names}
     # no rebinding of the constants at module level
     rebound = [n for n in RE_NAMES if m.module_assign(n) is not None]
-    apps = [c for c in ast.walk(f) if isinstance(c, ast.Call) and isinstance(c.func, ast.Attribute) and c.func.attr == "append"
-            and pyfront.dotted(c.func.value) == "regexes"]
-    if len(apps) < 6:
-        raise AnalysisError("%s.__init__: %d regexes.append sites, 6 confirmed" % (H, len(apps)))
-    for c in apps:
-        a = c.args[0]
-        name = pyfront.dotted(a)
-        if name in RE_NAMES and (name in imported or name.startswith("list_drf.")) and name not in rebound:
-            r.ok("%s:%s %s.__init__ regexes.append(%s)" % (m.rel, c.lineno, H, name), "constant imported from list_drf")
-        elif name and name.startswith("list_drf.") and name.split(".")[1] in RE_NAMES:
-            r.ok("%s:%s %s.__init__ regexes.append(%s)" % (m.rel, c.lineno, H, name), "constant of list_drf")
+    used = sorted({n for names, raised in table.values() for n in names})
+    if not used:
+        raise AnalysisError("%s.__init__: no registered regex found in any configuration" % H)
+    for name in used:
+        base = name.split(".")[-1]
+        if base in RE_NAMES and (name in imported or name.startswith("list_drf.")) and base not in rebound:
+            r.ok("%s %s.__init__ registers %s" % (m.rel, H, name), "constant imported from list_drf")
         else:
-            r.violation(m.rel, H + ".__init__", norm(ast.unparse(c)), "the event filter uses a regular expression that is not one of "
-                        "the listing's grammar constants", line=c.lineno)
-    sup = [c for c in ast.walk(f) if isinstance(c, ast.Call) and pyfront.call_name(c) == "super().__init__"]
-    if sup and norm(ast.unparse(pyfront.kwarg(sup[0], "regexes"))) == "regexes":
-        r.ok("%s:%s %s.__init__" % (m.rel, sup[0].lineno, H), "exactly the collected list is handed to RegexMatchingEventHandler")
-    else:
-        r.violation(m.rel, H + ".__init__", "super().__init__ regexes argument", "registered regexes differ from the collected list", line=f.lineno)
+            r.violation(m.rel, H + ".__init__", "registers `%s`" % name, "the event filter uses a regular expression that is not one of "
+                        "the listing's grammar constants", line=f.lineno)
+    r.ok("%s %s.__init__" % (m.rel, H), "the value of super().__init__(regexes=...) was evaluated for all 36 flag rows")
     r.guard(7)
     return r
 
@@ -183,23 +187,42 @@ def r3_no_tmp_no_dirs(repo=None):
 
 
 def _dispatch_flags(m, f):
-    """The two Boolean locals of dispatch that record whether the source / destination path matched."""
-    consts = {}
-    for n in pyfront.walk_no_nested(f):
-        if isinstance(n, ast.Assign) and len(n.targets) == 1 and isinstance(n.targets[0], ast.Name) \
-                and isinstance(n.value, ast.Constant) and isinstance(n.value.value, bool):
-            consts.setdefault(n.targets[0].id, []).append(n)
-    src = dest = None
-    for name, nodes in consts.items():
-        for n in nodes:
-            if n.value.value is True:
+    """The two locals of dispatch whose truthiness records whether the source / destination path matched: assigned under an
+    `if` on event.src_path (resp. dest_path) and tested outside it.  Also returns every local worth tracking."""
+    tested = set()
+    for n in ast.walk(f):
+        if isinstance(n, (ast.If, ast.While, ast.IfExp, ast.BoolOp, ast.UnaryOp, ast.Compare)):
+            for x in ast.walk(n.test if hasattr(n, "test") else n):
+                if isinstance(x, ast.Name):
+                    tested.add(x.id)
+    cand = {"src": set(), "dest": set()}
+    ctx_of = {}
+    for n in ast.walk(f):
+        if isinstance(n, ast.Assign) and len(n.targets) == 1 and isinstance(n.targets[0], ast.Name):
+            ifs = [a for a in _ancestors(m, n) if isinstance(a, ast.If)]
+            ctx = " ".join(norm(ast.unparse(a.test)) for a in ifs)
+            kind = "dest" if "dest_path" in ctx else "src" if "src_path" in ctx else None
+            if kind:
+                cand[kind].add(n.targets[0].id)
+                ctx_of.setdefault(n.targets[0].id, set()).add(kind)
+
+    def tested_outside(name, kind):
+        for n in ast.walk(f):
+            if isinstance(n, ast.If) and any(isinstance(x, ast.Name) and x.id == name for x in ast.walk(n.test)):
                 ctx = " ".join(norm(ast.unparse(a.test)) for a in _ancestors(m, n) if isinstance(a, ast.If))
-                body = " ".join(norm(ast.unparse(x)) for a in _ancestors(m, n) if isinstance(a, ast.If) for x in a.body)
-                if "dest_path" in ctx + body and "src_path" not in ctx:
-                    dest = name
-                elif "src_path" in ctx + body:
-                    src = name
-    return src, dest
+                key = "dest_path" if kind == "dest" else "src_path"
+                if key not in ctx or (kind == "src" and "dest_path" in ctx):
+                    return True
+        return False
+    params = {a.arg for a in f.args.args + f.args.kwonlyargs}
+    S = sorted(v for v in cand["src"] if ctx_of[v] == {"src"} and v not in params and tested_outside(v, "src"))
+    D = sorted(v for v in cand["dest"] if ctx_of[v] == {"dest"} and v not in params and tested_outside(v, "dest"))
+    track = set()
+    for n in ast.walk(f):
+        if isinstance(n, ast.Assign) and len(n.targets) == 1 and isinstance(n.targets[0], ast.Name):
+            track.add(n.targets[0].id)
+    return (S[0] if len(S) == 1 else None), (D[0] if len(D) == 1 else None), sorted(track & (tested | set(S) | set(D) | {
+        x.id for n in ast.walk(f) if isinstance(n, ast.Assign) and isinstance(n.value, ast.Name) for x in [n.value]}))
 
 
 def _ancestors(m, n):
@@ -213,12 +236,14 @@ def r4_move_conversion(repo=None):
     r = Rule("C15.R4", "a rename into the grammar is delivered as creation, a rename out of it as deletion")
     m = pyfront.mod("watchdog_drf", repo)
     q = H + ".dispatch"
-    f = m.fn(q)
-    g = m.cfg(q)
-    S, D = _dispatch_flags(m, f)
+    fvw = m.flat(q)
+    f = fvw.fn()
+    g = fvw.cfg()
+    S, D, track = _dispatch_flags(fvw, f)
     if not S or not D or S == D:
         raise AnalysisError("%s: the source-matched / destination-matched flags were not recognised (%s, %s)" % (q, S, D))
-    IN, idx = pyutil.flag_states(g, (S, D))
+    IN, idx = pyutil.truth_states(g, track)
+    IN = {k: {tuple({"T": True, "F": False}.get(x, None if x is None else False) if False else x for x in st) for st in v} for k, v in IN.items()}
 
     def nodes_assigning(call, attr):
         return [n for n in g.nodes if isinstance(n.ast, ast.Assign) and isinstance(n.ast.value, ast.Call)
@@ -248,7 +273,8 @@ def r4_move_conversion(repo=None):
             continue
         sts = set()
         for n in nodes:
-            sts |= {(bool(s[idx[S]]), bool(s[idx[D]])) for s in states(n)}
+            sts |= {(s[idx[S]] == "T", s[idx[D]] == "T") for s in states(n) if "U" not in (s[idx[S]], s[idx[D]])}
+            sts |= {("U", "U") for s in states(n) if "U" in (s[idx[S]], s[idx[D]])}
         if sts == {want[kind]}:
             r.ok("%s:%s %s" % (m.rel, nodes[0].line, q), label + " (reached exactly when %s=%s, %s=%s)" % (S, want[kind][0], D, want[kind][1]))
         else:
@@ -259,13 +285,14 @@ def r4_move_conversion(repo=None):
     conv = [n.id for n in dels + cres]
     final_states = set()
     for n in disp:
-        final_states |= {(bool(s[idx[S]]), bool(s[idx[D]])) for s in states(n)}
+        final_states |= {(s[idx[S]] == "T", s[idx[D]] == "T") for s in states(n) if "U" not in (s[idx[S]], s[idx[D]])}
+        final_states |= {("U", "U") for s in states(n) if "U" in (s[idx[S]], s[idx[D]])}
     if (False, False) in final_states:
         r.violation(m.rel, q, "dispatch reachable with neither path matching", "events for unrelated paths are delivered", line=disp[0].line)
     else:
         r.ok("%s:%s %s" % (m.rel, disp[0].line, q), "events matching neither path are dropped before the final dispatch")
     # both paths are matched against the handler's regexes (directly or through a helper)
-    text = norm(ast.unparse(f)) + " ".join(norm(ast.unparse(h)) for h, c, b in pyutil.local_helpers(m, f, depth=1))
+    text = norm(ast.unparse(f))
     if ".regexes" in text and ".match(" in text and "event.src_path" in text and "event.dest_path" in text:
         r.ok("%s:%s %s" % (m.rel, f.lineno, q), "src_path and dest_path are each matched against the registered regexes")
     else:
@@ -278,8 +305,9 @@ def r5_inclusive_window(repo=None):
     r = Rule("C15.R5", "the time window is inclusive on the name timestamp; every regex group used exists or is guarded")
     m = pyfront.mod("watchdog_drf", repo)
     q = H + ".dispatch"
-    f = m.fn(q)
-    g = m.cfg(q)
+    fvw = m.flat(q)
+    f = fvw.fn()
+    g = fvw.cfg()
     # the time variable: assigned from datetime.timedelta(seconds=<secs>, milliseconds=<frac>)
     tv = None
     for n in pyfront.walk_no_nested(f):
@@ -316,9 +344,12 @@ def r5_inclusive_window(repo=None):
         if not G and helper_has:
             raise AnalysisError("%s: the name time stamp is extracted in a helper; exemption of time-less names not analysed" % q)
         gids = [n.id for n in G]
-        free = g.reach([g.entry.id], avoid=gids)
-        via_exc = g.reach([b for n in G for b, lab in g.succ[n.id] if lab == "exc"], avoid=gids) if G else set()
-        bad = [d for d in drops if d.id in free or d.id in via_exc]
+        # feasible states (truthiness of the simple locals, e.g. `file_time is not None`) with a ghost flag that is true
+        # exactly after match.group('secs') returned normally
+        track = sorted({t.id for n in ast.walk(f) if isinstance(n, ast.Assign) and len(n.targets) == 1 for t in [n.targets[0]]
+                        if isinstance(t, ast.Name)} - {"event"})
+        IN, ix = pyutil.truth_states(g, track, ghost=("<secs ok>", gids))
+        bad = [d for d in drops if any(st[ix["<secs ok>"]] != "T" for st in IN.get(d.id, ()))]
         if bad:
             r.violation(m.rel, q, "window drop (`return` at line %d) not conditional on match.group('secs') succeeding" % bad[0].line,
                         "an event for a name without a time stamp (a properties file) is compared with the time window through a "
